@@ -405,6 +405,35 @@ int48 i48
 void24
 @sealed
 ''',
+    # three types whose offsets after the first field have the same smallest and largest element but differ in alignment
+    # ({8,16,24} / {8,12,...,24} / {8,9,...,24}): whatever keys a decision on a coarse summary of an offset set confuses them
+    'cov/TwinOffA.1.0.dsdl': '''uint8[<=2] a
+float16 x
+int13 i
+uint8[2] arr
+uint16 u
+bool[<=3] bs
+uint8 t
+@sealed
+''',
+    'cov/TwinOffB.1.0.dsdl': '''uint4[<=4] a
+float16 x
+int13 i
+uint8[2] arr
+uint16 u
+bool[<=3] bs
+uint8 t
+@sealed
+''',
+    'cov/TwinOffC.1.0.dsdl': '''bool[<=16] a
+float16 x
+int13 i
+uint8[2] arr
+uint16 u
+bool[<=3] bs
+uint8 t
+@sealed
+''',
     'cov/TailOdd.1.0.dsdl': '''# the last field is a byte aligned integer of a non-standard width (as in uavcan.time.Synchronization)
 uint8 a
 truncated uint56 t56
@@ -471,6 +500,18 @@ void5
 @sealed
 ''',
     'cov/LongArr.1.0.dsdl': 'uint8[<=256] a\nuint8[<=70000] b\nbool[<=1000] c\n@sealed\n',
+    # long arrays of whole-byte elements that start off a byte boundary, right after bits that are usually non-zero
+    'cov/LongUnaligned.1.0.dsdl': '''uint3 head
+uint8[80] payload
+bool urgent
+uint8[<=200] data
+uint16[40] w
+float64[<=9] d
+bool more
+bool[<=600] bits
+int32[<=20] tail
+@sealed
+''',
     'cov/Inner.1.0.dsdl': 'uint5 a\nint11 b\nbool[<=3] c\n@sealed\n',
     'cov/Outer.1.0.dsdl': '''Inner.1.0 one
 void2
